@@ -128,7 +128,15 @@ def analysis(cfg, d, keep_raw=False, models_in=None):
         fasta, _ = _fasta_and_peptides(cfg["data_seed"], decoys=cfg["proteins"] == "with_decoys")
         (d / "db.fasta").write_text(fasta)
         proteins = mokapot.read_fasta(d / "db.fasta", missed_cleavages=0, min_length=6)
-    model = list(models_in) if models_in is not None else PercolatorModel(train_fdr=0.2, rng=seed)
+    if models_in is not None:
+        model = list(models_in)
+    elif cfg.get("model") == "plain":
+        # a user-supplied estimator wrapped in mokapot.Model, constructed WITHOUT a generator of its own: the only
+        # randomness of its training is the shuffle of the training PSMs, which brew(rng=seed) has to seed
+        from sklearn.svm import LinearSVC
+        model = mokapot.Model(LinearSVC(dual=False, C=1.0), train_fdr=0.2)
+    else:
+        model = PercolatorModel(train_fdr=0.2, rng=seed)
     psms, models, scores, descs = brew([ds], model=model, test_fdr=0.2, folds=k, max_workers=w, rng=seed)
     out = d / "out"
     out.mkdir(exist_ok=True)
@@ -173,23 +181,29 @@ def _case_of(diffs):
     return "result-files-" + "+".join(levels)
 
 
-def base_cfg(seed, data_seed=3, n_spec=150, folds=3, workers=1, fmt="parquet", proteins=None, global_seed=None):
+def base_cfg(seed, data_seed=3, n_spec=150, folds=3, workers=1, fmt="parquet", proteins=None, global_seed=None,
+             model=None):
     if proteins:
         fmt = "text"        # protein-level output cannot be produced from Parquet input (proteins.parquet is written as csv)
-    return {"seed": seed, "data_seed": data_seed, "n_spec": n_spec, "folds": folds, "workers": workers, "fmt": fmt,
-            "proteins": proteins, "global_seed": global_seed}
+    cfg = {"seed": seed, "data_seed": data_seed, "n_spec": n_spec, "folds": folds, "workers": workers, "fmt": fmt,
+           "proteins": proteins, "global_seed": global_seed}
+    if model:
+        cfg["model"] = model
+    return cfg
 
 
 # ----------------------------------------------------------------------------------------------- (a) in-process
 def check_same_process(tier, seed):
     import numpy as np
     seeds = [seed, seed + 1] if tier == "quick" else [seed + j for j in range(6)]
-    variants = [dict(fmt="parquet", workers=1), dict(fmt="text", workers=2)]
+    variants = [dict(fmt="parquet", workers=1), dict(fmt="text", workers=2),
+                dict(fmt="parquet", workers=1, model="plain")]
     if tier != "quick":
         variants += [dict(fmt="text", workers=1, folds=2), dict(fmt="parquet", workers=4, folds=4),
                      dict(fmt="text", workers=2, proteins="with_decoys")]
     ck = Check("repeat_in_process", "mokapot.read_pin + brew + assign_confidence (+ OnDiskPsmDataset._split)",
-               "%d analysis seeds x %d configurations (format, workers, folds%s), 300 PSMs / 150 spectra, 3 features; each "
+               "%d analysis seeds x %d configurations (format, workers, folds, PercolatorModel(rng=seed) or a plain "
+               "Model(LinearSVC) built without rng%s), 300 PSMs / 150 spectra, 3 features; each "
                "run twice in one process, the global numpy RNG seeded differently before each run"
                % (len(seeds), len(variants), "" if tier == "quick" else ", protein level"),
                "np.array_equal on folds / coefficients / scaler / scores, byte equality of every result file; "
@@ -280,16 +294,17 @@ def _sessions(ck, cfgs, hashseeds, what, pending=None):
 def session_plan(tier, seed):
     hs = [0, 12345] if tier == "quick" else [0, 1, 12345, 987654]
     seeds = [seed, seed + 1] if tier == "quick" else [seed + j for j in range(4)]
-    variants = [dict(fmt="parquet", workers=1)]
+    variants = [dict(fmt="parquet", workers=1), dict(fmt="parquet", workers=1, model="plain")]
     if tier != "quick":
-        variants = [dict(fmt=f, workers=w) for f in ("parquet", "text") for w in (1, 2, 4)]
+        variants = [dict(fmt=f, workers=w) for f in ("parquet", "text") for w in (1, 2, 4)] + \
+            [dict(fmt="text", workers=2, model="plain")]
     return [base_cfg(s, **v) for s in seeds for v in variants], hs, len(seeds), len(variants)
 
 
 def check_sessions(tier, seed, pending=None):
     cfgs, hs, n_seeds, n_var = session_plan(tier, seed)
     ck = Check("fresh_interpreters", "mokapot.read_pin + brew + assign_confidence in `python -m harness.c08 --worker`",
-               "PYTHONHASHSEED in %s x %d analysis seeds x %d configurations (format x max_workers), 300 PSMs; global numpy "
+               "PYTHONHASHSEED in %s x %d analysis seeds x %d configurations (format x max_workers x model kind), 300 PSMs; global numpy "
                "RNG left at its (entropy-seeded) start-up state" % (hs, n_seeds, n_var),
                "sha256 of fold assignments, coefficients+scaler, scores, each result file compared between sessions; "
                "non-trivial = all fold models trained and the learned score is used in every session")
